@@ -795,6 +795,10 @@ func (c *Ctx) dischargeBound(s boundSite) (string, bool) {
 					return "n is the size returned by utf8.DecodeRuneInString of the same string (0 <= n <= len)", true
 				}
 			}
+			// x[i:] with i counting up from a non-negative constant and i <= len(x)
+			if ph, ok := s.low.(*ssa.Phi); ok && countsUpFromNonNegative(ph) && c.varAtMostLen(s.f, ph, s.x, blk) {
+				return "i counts up from a non-negative constant under i <= len", true
+			}
 			// x[i+1:] with i < len(x)
 			if bo, ok := s.low.(*ssa.BinOp); ok && bo.Op == token.ADD {
 				if k, ok := constInt(bo.Y); ok && k == 1 {
@@ -1179,4 +1183,47 @@ func (c *Ctx) reachedUnderCase(blk *ssa.BasicBlock, bo *ssa.BinOp) bool {
 		}
 	}
 	return false
+}
+
+// varAtMostLen: fact `i <= len(x)` (or equivalent) holds at blk.
+func (c *Ctx) varAtMostLen(f *ssa.Function, i, x ssa.Value, blk *ssa.BasicBlock) bool {
+	for _, b := range f.Blocks {
+		for _, in := range b.Instrs {
+			bo, ok := in.(*ssa.BinOp)
+			if !ok {
+				continue
+			}
+			isLen := func(v ssa.Value) bool {
+				k, ok := v.(*ssa.Call)
+				return ok && calleeName(k) == "builtin:len" && sameLen(k.Call.Args[0], x)
+			}
+			if (bo.Op == token.LEQ && bo.X == i && isLen(bo.Y)) || (bo.Op == token.GEQ && bo.Y == i && isLen(bo.X)) {
+				if c.condAt(bo, true, blk) {
+					return true
+				}
+			}
+			if (bo.Op == token.GTR && bo.X == i && isLen(bo.Y)) || (bo.Op == token.LSS && bo.Y == i && isLen(bo.X)) {
+				if c.condAt(bo, false, blk) {
+					return true
+				}
+			}
+		}
+	}
+	return false
+}
+
+// countsUpFromNonNegative: every edge of the phi is a non-negative constant or the phi plus a positive constant.
+func countsUpFromNonNegative(ph *ssa.Phi) bool {
+	for _, e := range ph.Edges {
+		if k, ok := constInt(e); ok && k >= 0 {
+			continue
+		}
+		if inc, ok := e.(*ssa.BinOp); ok && inc.Op == token.ADD && inc.X == ssa.Value(ph) {
+			if k, ok := constInt(inc.Y); ok && k > 0 {
+				continue
+			}
+		}
+		return false
+	}
+	return len(ph.Edges) > 0
 }
